@@ -6,6 +6,7 @@ import sys
 import numpy as np
 
 from vf import REPO_ROOT, VERIF_ROOT
+from vf import history as H
 from vf import instrument as I
 from vf.core import digest
 from vf.gen import ALL_KINDS, gen_data
@@ -69,7 +70,7 @@ def make_recipe(rng, tier, which):
     kw = spec["kw"]
     b = kw.get("bandwidth") or kw.get("min_segment_length") or 1
     X, _ = gen_data(rng, n, p, kind, boundary=b)
-    return {"det": spec, "X": X, "data_kind": kind,
+    return {"det": spec, "X": X, "data_kind": kind, "history": H.pick(rng), "hseed": int(rng.integers(2 ** 31)),
             "index": "range0" if rng.random() < 0.4 else (INDEX_KINDS + TIED_INDEX_KINDS)[int(rng.integers(7))]}
 
 
@@ -86,7 +87,18 @@ def exec_case(ctx, r):
     label = f"{short(spec)} X[{n}x{p}] data={r['data_kind']} index={r['index']}"
     I.drain()
     try:
-        det = build(spec).fit(df)
+        # the judged predict may come after a history (vf/history.py): trained on other data, asked
+        # about other data first, the caller's object edited in place, or configured through set_params
+        # after having been used with other structural hyper-parameters
+        def wrap(a):
+            f = make_frame(a, r["index"], dtype=str(np.asarray(a).dtype))
+            return f.iloc[:, 0] if name == "StatThresholdAnomaliser" else f
+        nmin_h = 2 * int(spec["kw"].get("bandwidth") or spec["kw"].get("min_segment_length") or 2)
+        hist = r.get("history")
+        if name == "StatThresholdAnomaliser" and hist == "inplace":
+            hist = None  # (a Series view of a frame: in-place assignment differs by pandas version)
+        det, df = H.prepare(build(spec), X, hist, r.get("hseed", 0), nmin_h, wrap=wrap)
+        ctx.stat(f"history[{hist}]")
         y = det.predict(df)
     except RuntimeError:
         ctx.stat("documented_runtimeerror")
